@@ -1,11 +1,9 @@
 SPECIFICATION Spec
 CONSTANTS
-  Part = "exp"
+  Part = "misc"
   Size = "quick"
   Defects = {}
 INVARIANT TypeOK
 INVARIANT Conforms
-INVARIANT NeverUnsafe304
-INVARIANT IfMatchGuards
 INVARIANT Export
 CHECK_DEADLOCK FALSE
